@@ -1,4 +1,5 @@
 import Driver.Solver
+import Driver.Linker
 import Driver.Parser
 /-
 Correspondence driver.  `.lake/build/bin/fsicdrv < requests > replies`  (or `lake env lean --run Main.lean`)
@@ -8,7 +9,7 @@ Every model family registers its handlers in its own `Driver/<Family>.lean`; thi
 open Lean
 
 def allHandlers : List (String × (Json → Except String String)) :=
-  Drv.Solver.handlers
+  Drv.Solver.handlers2 ++ Drv.Linker.handlers
   ++ Drv.Parser.handlers
 
 def dispatch (kind : String) (j : Json) : Except String String :=
